@@ -195,6 +195,22 @@ def symbols():
     add('admix_new_3d', lambda: {'phi': _phi(2), 'xx': _grid()}, lambda a: PM.phi_2D_to_3D_admix(a['phi'], 0.25, a['xx'], a['xx'], a['xx']))
     add('pulse_2d', lambda: {'phi': _phi(2), 'xx': _grid()}, lambda a: PM.phi_2D_admix_1_into_2(a['phi'], 0.25, a['xx'], a['xx']), inplace=('phi',))
     add('pulse_3d', lambda: {'phi': _phi(3), 'xx': _grid()}, lambda a: PM.phi_3D_admix_1_and_3_into_2(a['phi'], 0.25, 0.125, a['xx'], a['xx'], a['xx']), inplace=('phi',))
+    # every in-place pulse function (the layout variants hand them transposed / strided densities, as reorder_pops does)
+    add('pulse_2d_2into1', lambda: {'phi': _phi(2), 'xx': _grid()}, lambda a: PM.phi_2D_admix_2_into_1(a['phi'], 0.25, a['xx'], a['xx']), inplace=('phi',))
+    add('pulse_3d_into1', lambda: {'phi': _phi(3), 'xx': _grid()}, lambda a: PM.phi_3D_admix_2_and_3_into_1(a['phi'], 0.25, 0.125, a['xx'], a['xx'], a['xx']), inplace=('phi',))
+    add('pulse_3d_into3', lambda: {'phi': _phi(3), 'xx': _grid()}, lambda a: PM.phi_3D_admix_1_and_2_into_3(a['phi'], 0.25, 0.125, a['xx'], a['xx'], a['xx']), inplace=('phi',))
+    x4 = np.array([0.0, 0.25, 0.5, 1.0])
+    for dest in (1, 2, 3, 4):
+        add('pulse_4d_into%d' % dest, lambda: {'phi': _phi(4, 4), 'xx': x4.copy()},
+            lambda a, dest=dest: getattr(PM, 'phi_4D_admix_into_%d' % dest)(a['phi'], 0.25, 0.125, 0.0625, *([a['xx']] * 4)), inplace=('phi',))
+    x5 = np.array([0.0, 0.5, 1.0])
+    for dest in (1, 3, 5):
+        add('pulse_5d_into%d' % dest, lambda: {'phi': _phi(5, 3), 'xx': x5.copy()},
+            lambda a, dest=dest: getattr(PM, 'phi_5D_admix_into_%d' % dest)(a['phi'], 0.25, 0.125, 0.0625, 0.03125, *([a['xx']] * 5)), inplace=('phi',))
+    # spectrum arithmetic with a scalar and with a plain array: a new object that shares nothing with the operand
+    add('fs_times_scalar', lambda: {'fs': _fs((5, 4))}, lambda a: a['fs'] * 2.0)
+    add('fs_plus_array', lambda: {'fs': _fs((5, 4)), 'arr': np.ones((5, 4))}, lambda a: a['fs'] + a['arr'])
+    add('scalar_minus_fs', lambda: {'fs': _fs((5, 4))}, lambda a: 3.0 - a['fs'])
     add('remove_pop', lambda: {'phi': _phi(3), 'xx': _grid()}, lambda a: PM.remove_pop(a['phi'], a['xx'], 2))
     add('reorder_then_sample', lambda: {'phi': _phi(3), 'xx': _grid()},
         lambda a: dadi.Spectrum.from_phi(PM.reorder_pops(a['phi'], [3, 1, 2]), [2, 3, 2], [a['xx']] * 3))
@@ -206,6 +222,20 @@ def symbols():
             g = dadi.Demes.output(Nref=100.0)
             return np.frombuffer(json.dumps(g.asdict(), sort_keys=True, default=str).encode(), dtype=np.uint8).astype(float)
         return call
+    def _export_pulse(times):
+        def call(a):
+            phi = PM.phi_1D(a['xx'])
+            phi = PM.phi_1D_to_2D(a['xx'], phi)
+            phi = I.two_pops(phi, a['xx'], 0.05, nu1=0.5, nu2=2.0)
+            phi = PM.phi_2D_admix_1_into_2(phi, 0.25, a['xx'], a['xx'])
+            phi = I.two_pops(phi, a['xx'], 0.03, nu1=0.5, nu2=2.0)
+            g = None
+            for _ in range(times):
+                g = dadi.Demes.output(Nref=100.0)      # asking for the graph again must not change it
+            return np.frombuffer(json.dumps(g.asdict(), sort_keys=True, default=str).encode(), dtype=np.uint8).astype(float)
+        return call
+    add('demes_output_pulse_once', lambda: {'xx': _grid()}, _export_pulse(1))
+    add('demes_output_pulse_twice', lambda: {'xx': _grid()}, _export_pulse(2))
     add('demes_output_h0.3', lambda: {'xx': _grid()}, _export(0.3))
     add('demes_output_h0.5', lambda: {'xx': _grid()}, _export(0.5))
 
@@ -320,6 +350,11 @@ def aliases(result, args, inplace):
         base = v.data if isinstance(v, np.ma.MaskedArray) else v
         if isinstance(base, np.ndarray) and base.size and np.shares_memory(r, base):
             out.append(k)
+        elif isinstance(result, np.ma.MaskedArray) and isinstance(v, np.ma.MaskedArray):
+            # the mask buffers too: a later in-place mask change on the result must not reach the argument
+            mr, mv = np.ma.getmask(result), np.ma.getmask(v)
+            if mr is not np.ma.nomask and mv is not np.ma.nomask and np.shares_memory(mr, mv):
+                out.append(k + '.mask')
     return out
 
 
@@ -563,7 +598,32 @@ def case_hashseed(col, p):
     col.distinct('nontrivial', ('hashseed', tuple(p['seeds'])))
 
 
-CASES = {'bfs': case_bfs, 'layout': case_layout, 'hashseed': case_hashseed}
+EQUAL_SYMS = [('demes_output_pulse_once', 'demes_output_pulse_twice'), ('demes_sfs', 'demes_sfs')]
+
+
+def case_equalities(col, p):
+    """pairs of symbols that differ only in repeating a read-only call: their history-free values coincide"""
+    from mc.state import ModuleState
+    S = symbols()
+    MS = ModuleState()
+    n = 0
+    for a, b in EQUAL_SYMS:
+        if a not in S or b not in S:
+            continue
+        MS.clear()
+        ra = canon_result(run_symbol(a, S)[0])
+        MS.clear()
+        rb = canon_result(run_symbol(b, S)[0])
+        col.tick(transitions=2)
+        n += 1
+        if not same_result(b, ra, rb):
+            col.violation('C20:%s:repeating_a_read_only_call_changes_the_result' % b, dict(p, pair=[a, b]), '')
+    MS.clear()
+    col.tick(states=n, traces=n)
+    col.distinct('nontrivial', ('equalities',))
+
+
+CASES = {'bfs': case_bfs, 'layout': case_layout, 'hashseed': case_hashseed, 'equalities': case_equalities}
 
 
 def _dispatch(col, case):
@@ -595,6 +655,7 @@ def run(ctx):
         cases.append({'kind': 'bfs', 'first': [nm], 'alphabet': allnames, 'cap': 10 ** 6, 'max_depth': 2 if ctx.quick else 3})
     for nm in allnames:
         cases.append({'kind': 'layout', 'symbol': nm})
+    cases.append({'kind': 'equalities'})
     seeds = sorted(set([0, 1, 2, 3, ctx.seed]))
     cases.append({'kind': 'hashseed', 'alphabet': alpha if ctx.quick else allnames, 'seeds': seeds})
     ctx.note('alphabet: %d symbols (closure BFS over %d of them with state cap %d per first symbol; depth-%d exploration over all)' %
